@@ -103,29 +103,56 @@ def showErr : Err → String
   | .stuck n => s!"stuck {n}"
   | .fuel => "fuel"
 
-def pyOps (t : List String) : Option String :=
+abbrev PyRegs := List (String × Val)
+
+def regGet (rs : PyRegs) (k : String) : Option Val := (rs.find? (·.1 == k)).map (·.2)
+def regSet (rs : PyRegs) (k : String) (v : Val) : PyRegs := (k, v) :: rs.filter (·.1 != k)
+
+/-- an argument: a value in the prefix code, or `$reg` -/
+def arg? (rs : PyRegs) (s : String) : Option Val :=
+  if s.startsWith "$" then regGet rs (s.drop 1).toString else val? s
+
+def pyOps (rs : PyRegs) (t : List String) : Option (PyRegs × String) :=
   match t with
   | "Y.fn" :: fn :: args => do
     let f ← idOf? fn
-    let vs ← args.mapM val?
+    let vs ← args.mapM (arg? rs)
     match pyProgram.runFn f vs with
-    | .ok v => pure s!"ok {showVal v}"
-    | .error e => pure (showErr e)
+    | .ok v => pure (rs, s!"ok {showVal v}")
+    | .error e => pure (rs, showErr e)
   | "Y.meth" :: cn :: mn :: args => do
     let c ← idOf? cn
     let m ← idOf? mn
-    let vs ← args.mapM val?
+    let vs ← args.mapM (arg? rs)
     match pyProgram.runMethod c m vs with
-    | .ok (v, s) => pure s!"ok {showVal v} {showVal s}"
-    | .error e => pure (showErr e)
+    | .ok (v, s) => pure (rs, s!"ok {showVal v} {showVal s}")
+    | .error e => pure (rs, showErr e)
   | "Y.new" :: cn :: args => do
     let c ← idOf? cn
-    let vs ← args.mapM val?
+    let vs ← args.mapM (arg? rs)
     match pyProgram.runNew c vs with
-    | .ok v => pure s!"ok {showVal v}"
-    | .error e => pure (showErr e)
+    | .ok v => pure (rs, s!"ok {showVal v}")
+    | .error e => pure (rs, showErr e)
+  -- registers: a whole run of a state machine in one batch
+  | ["Y.let", reg, v] => do
+    let v ← val? v
+    pure (regSet rs reg v, "ok")
+  | "Y.newr" :: reg :: cn :: args => do
+    let c ← idOf? cn
+    let vs ← args.mapM (arg? rs)
+    match pyProgram.runNew c vs with
+    | .ok v => pure (regSet rs reg v, s!"ok {showVal v}")
+    | .error e => pure (rs, showErr e)
+  | "Y.methr" :: reg :: cn :: mn :: args => do
+    let c ← idOf? cn
+    let m ← idOf? mn
+    let self ← regGet rs reg
+    let vs ← args.mapM (arg? rs)
+    match pyProgram.runMethod c m (self :: vs) with
+    | .ok (v, s) => pure (regSet rs reg s, s!"ok {showVal v} {showVal s}")
+    | .error e => pure (rs, showErr e)
   | ["Y.skipped"] =>
-    pure ("skipped=" ++ ";".intercalate (Bridge.Generated.PyCore.skipped.map fun (a, b) => a ++ ":" ++ hexOf b.toList))
+    pure (rs, "skipped=" ++ ";".intercalate (Bridge.Generated.PyCore.skipped.map fun (a, b) => a ++ ":" ++ hexOf b.toList))
   | _ => none
 
 end Bridge.Driver
